@@ -212,6 +212,12 @@ def check_property(prop_id, specs, tier, seed, meta):
                             for r in results],
             exhaustive=False,
         ))
+    if ev['level'] == 'model_checking':
+        # nodes/edges of the automata extracted from the real code in this run (summed over obligations) and
+        # the number of solver schedules that were replayed against the real implementation
+        ev['coverage']['states'] = max(1, sum(int(r.get('stats', {}).get('automaton_nodes', 0) or 0) for r in results))
+        ev['coverage']['transitions'] = max(1, sum(int(r.get('stats', {}).get('automaton_edges', 0) or 0) for r in results))
+        ev['coverage']['traces_validated_against_impl'] = sum(1 for r in results if r.get('replayed') is True)
     os.makedirs(os.path.join(VERIF, 'evidence'), exist_ok=True)
     with open(os.path.join(VERIF, 'evidence', '%s.json' % prop_id), 'w') as f:
         json.dump(ev, f, indent=1, default=str)
